@@ -214,6 +214,8 @@ impl Debugger {
 
         // `HALT` and breakpoints should be already handled (above)
         loop {
+            #[cfg(lace_verif)]
+            crate::verif::note_action_loop();
             match &mut self.status {
                 Status::WaitForAction => {
                     // Continue loop until action is given
